@@ -21,22 +21,26 @@ CONSTANTS InitSets,      \* set of initial working sets
           MaxDepth,      \* bound on the number of steps in a behaviour
           MaxWs          \* bound on |ws| (state constraint)
 
-VARIABLES ws, last, depth
-vars == <<ws, last, depth>>
+VARIABLES ws, last, depth,
+          pt     \* the point the client currently holds (constant along a behaviour)
+vars == <<ws, last, depth, pt>>
 
 NoStep == [op |-> "Init", a |-> <<>>, pre |-> {}, res |-> {}]
 
 Init == /\ ws \in InitSets
         /\ last = [NoStep EXCEPT !.res = ws]
         /\ depth = 0
+        /\ pt \in (IF Points = {} THEN {<<>>} ELSE Points)
 
 Step(op, a, res) == /\ depth < MaxDepth
+                    /\ pt' = pt
                     /\ depth' = depth + 1
                     /\ last' = [op |-> op, a |-> a, pre |-> ws, res |-> res]
 
 \* --- actions --------------------------------------------------------------
 Lookup(p, h, v) ==
   /\ "Lookup" \in Ops
+  /\ p # <<>>
   /\ LatDecided(p, h)
   /\ ws' = ws \cup {PointToVoxel(p, h, v, TRUE)}
   /\ Step("Lookup", <<p, h, v>>, {PointToVoxel(p, h, v, TRUE)})
@@ -81,8 +85,15 @@ DoNotation(s) ==
   /\ ws' = ws
   /\ Step("Notation", s, ExpandImpl(s))
 
+\* query: geometry of one voxel of the working set
+DoGeom(s) ==
+  /\ "Geom" \in Ops
+  /\ ws' = ws
+  /\ Step("Geom", s, Vertices(s))
+
 Next == \/ \E s \in ws : DoNotation(s)
-        \/ \E p \in Points, h \in Zooms, v \in Zooms : Lookup(p, h, v)
+        \/ \E s \in ws : DoGeom(s)
+        \/ \E h \in Zooms, v \in Zooms : Lookup(pt, h, v)
         \/ \E h \in Zooms, v \in Zooms : DoChangeZoom(h, v)
         \/ \E h \in Zooms, v \in Zooms : DoMerge(h, v)
         \/ \E o \in ShiftOffsets : DoShift(o)
@@ -175,6 +186,37 @@ C09_LookupNested == IsOp("Lookup") =>
       LatDecided(p, h2) =>
         /\ ChangeZoom(last.res, h2, v2) = {PointToVoxel(p, h2, v2, TRUE)}
         /\ OverlapArr(last.res, {PointToVoxel(p, h2, v2, TRUE)})
+
+\* C02: the vertices are the corners of the voxel's region; the centre maps
+\* back to the voxel; voxels sharing a face share its corners; one zoom tiles space
+RegionMin(s, i) == SetMin({c[i] : c \in Region(s)})
+RegionMax(s, i) == SetMax({c[i] : c \in Region(s)})
+\* a lattice coordinate n / 2^k expressed at unit depth M
+AtUnit(n, k) == n * Pow2(M - k)
+C02_VerticesAreBox == IsOp("Geom") =>
+   LET s == last.a  vs == last.res IN
+   /\ Len(vs) = 8
+   /\ \A i \in 1..8 :
+        /\ AtUnit(vs[i][2], vs[i][1]) = (IF i \in {1, 4, 5, 8} THEN RegionMin(s, 1) ELSE RegionMax(s, 1) + 1)
+        /\ AtUnit(vs[i][3], vs[i][1]) = (IF i \in {1, 2, 5, 6} THEN RegionMin(s, 2) ELSE RegionMax(s, 2) + 1)
+        /\ AtUnit(vs[i][5], vs[i][4]) = (IF i <= 4 THEN RegionMin(s, 3) ELSE RegionMax(s, 3) + 1)
+C02_CentreRoundTrip == IsOp("Geom") =>
+   LET s == last.a
+       c == <<s[1] + 2, 4 * s[2] + 2, 4 * s[3] + 2, s[4] + 1, 2 * s[5] + 1, 0>>
+   IN  /\ LatDecided(c, s[1])
+       /\ PointToVoxel(c, s[1], s[4], TRUE) = s
+       /\ <<c[1] - 1, c[2] \div 2>> = CentreU(s) /\ <<c[4], c[5]>> = CentreA(s)
+C02_SharedFaces == IsOp("Geom") =>
+   LET s == last.a  vs == last.res
+       E == Vertices(<<s[1], s[2] + 1, s[3], s[4], s[5]>>)
+       S == Vertices(<<s[1], s[2], s[3] + 1, s[4], s[5]>>)
+       U == Vertices(<<s[1], s[2], s[3], s[4], s[5] + 1>>)
+   IN  /\ <<vs[2], vs[3], vs[6], vs[7]>> = <<E[1], E[4], E[5], E[8]>>
+       /\ <<vs[4], vs[3], vs[8], vs[7]>> = <<S[1], S[2], S[5], S[6]>>
+       /\ <<vs[5], vs[6], vs[7], vs[8]>> = <<U[1], U[2], U[3], U[4]>>
+C02_Tiling == IsOp("Geom") =>
+   \A c \in Region(last.a) :
+      Cardinality({t \in VoxAt(last.a[1], last.a[4]) : InRegion(c, t)}) = 1
 
 \* C10
 C10_Expand == IsOp("Notation") =>
